@@ -349,6 +349,13 @@ func c04Hostile() []hcase {
 	add("RDE storm without opendir", wire.Bare(wire.OpRDE), wire.Bare(wire.OpRDE2), wire.Bare(wire.OpReadDir), wire.Bare(wire.OpRDE))
 	add("OPENDIR on file then list", wire.P(wire.OpOpenDir, "/file.bin"), wire.Bare(wire.OpReadDir), wire.Bare(wire.OpRDE), wire.Bare(wire.OpRDE2))
 	add("OPENDIR on image path then list", wire.P(wire.OpOpenDir, "/***DVD***/dir"), wire.Bare(wire.OpReadDir), wire.Bare(wire.OpRDE))
+	// the same for directories below the first level, for both prefixes and each listing command
+	for _, vp := range []string{"/***DVD***/game/PS3_GAME", "/***PS3***/game/PS3_GAME", "/***DVD***/geo", "/***DVD***/hd/names/deep/d0/d1", "/***DVD***/game/PS3_GAME/", "/***DVD***//game/PS3_GAME"} {
+		for _, l := range []wire.Op{wire.OpRDE, wire.OpRDE2, wire.OpReadDir} {
+			add(fmt.Sprintf("OPENDIR %s then %s", vp, l), wire.P(wire.OpOpenDir, vp), wire.Bare(l), wire.Bare(l), wire.P(wire.OpStat, "/"))
+			add(fmt.Sprintf("OPENDIR / then OPENDIR %s then %s", vp, l), wire.P(wire.OpOpenDir, "/"), wire.P(wire.OpOpenDir, vp), wire.Bare(l), wire.P(wire.OpStat, "/"))
+		}
+	}
 	add("OPEN dir then reads", wire.P(wire.OpOpen, "/dir"), wire.Read(100, 0), wire.P(wire.OpOpen, "/dir"), wire.Crit(10, 0))
 	add("OPEN dir then READCD", wire.P(wire.OpOpen, "/dir"), wire.CD(0, 1))
 	add("virtual of file", wire.P(wire.OpOpen, "/***DVD***/file.bin"), wire.Read(10, 0))
